@@ -1241,12 +1241,18 @@ impl Add for CelValue {
             match lhs {
                 CelValue::Int(val1) => {
                     if let CelValue::Int(val2) = rhs {
-                        return CelValue::from(val1 + val2);
+                        return match val1.checked_add(val2) {
+                            Some(res) => CelValue::from(res),
+                            None => CelValue::from_err(CelError::value("Integer overflow in '+'")),
+                        };
                     }
                 }
                 CelValue::UInt(val1) => {
                     if let CelValue::UInt(val2) = rhs {
-                        return CelValue::from(val1 + val2);
+                        return match val1.checked_add(val2) {
+                            Some(res) => CelValue::from(res),
+                            None => CelValue::from_err(CelError::value("Integer overflow in '+'")),
+                        };
                     }
                 }
                 CelValue::Float(val1) => {
@@ -1313,12 +1319,18 @@ impl Sub for CelValue {
             match lhs {
                 CelValue::Int(val1) => {
                     if let CelValue::Int(val2) = rhs {
-                        return CelValue::from(val1 - val2);
+                        return match val1.checked_sub(val2) {
+                            Some(res) => CelValue::from(res),
+                            None => CelValue::from_err(CelError::value("Integer overflow in '-'")),
+                        };
                     }
                 }
                 CelValue::UInt(val1) => {
                     if let CelValue::UInt(val2) = rhs {
-                        return CelValue::from(val1 - val2);
+                        return match val1.checked_sub(val2) {
+                            Some(res) => CelValue::from(res),
+                            None => CelValue::from_err(CelError::value("Integer overflow in '-'")),
+                        };
                     }
                 }
                 CelValue::Float(val1) => {
@@ -1364,12 +1376,18 @@ impl Mul for CelValue {
             match lhs {
                 CelValue::Int(val1) => {
                     if let CelValue::Int(val2) = rhs {
-                        return CelValue::from(val1 * val2);
+                        return match val1.checked_mul(val2) {
+                            Some(res) => CelValue::from(res),
+                            None => CelValue::from_err(CelError::value("Integer overflow in '*'")),
+                        };
                     }
                 }
                 CelValue::UInt(val1) => {
                     if let CelValue::UInt(val2) = rhs {
-                        return CelValue::from(val1 * val2);
+                        return match val1.checked_mul(val2) {
+                            Some(res) => CelValue::from(res),
+                            None => CelValue::from_err(CelError::value("Integer overflow in '*'")),
+                        };
                     }
                 }
                 CelValue::Float(val1) => {
